@@ -203,6 +203,9 @@ def sTransferEncoding := lit "Transfer-Encoding"
 def sContentEncoding := lit "Content-Encoding"
 def sConnection := lit "Connection"
 
+/-- `DEFAULT_NO_CONTENT_CODES`: exactly 1xx, 204 and 304 — the status codes for which the
+protocol forbids a body (RFC 7230 section 3.3.3 rule 1).  205 is *not* among them: it is
+framed like any other response. -/
 def noContentCode (code : Nat) : Bool := (100 ≤ code && code < 200) || code == 204 || code == 304
 
 /-- `is_no_body(request, response)` (repaired: the fields are not consulted) -/
@@ -550,6 +553,22 @@ def recordStep (b : Blocks) : Ev → Blocks
   | .endResponse => { b with response := b.response ++ [b.curResp] }
 
 def record (evs : List Ev) : Blocks := evs.foldl recordStep {}
+
+/-- `HTTPWARCRecorderSession._find_payload_offset`: length of the header block as recorded
+(lines up to and including the first empty line `\\r\\n` / `\\n`) -/
+def payloadOffset (b : Bytes) : Nat :=
+  go (b.length + 1) b 0
+where
+  go : Nat → Bytes → Nat → Nat
+    | 0, _, off => off
+    | fuel + 1, r, off =>
+      if r.isEmpty then off else
+      let l := (splitLF r).1
+      if l == [13, 10] || l == [10] then off + l.length
+      else go fuel (splitLF r).2 (off + l.length)
+
+/-- block of a revisit record: the recorded response cut down to its header block -/
+def revisitBlock (recorded : Bytes) : Bytes := recorded.take (payloadOffset recorded)
 
 /-! ## `asyncio.StreamReader` mirror (ties the schedule abstraction to segments) -/
 
